@@ -189,5 +189,39 @@ func Solve(query string, timeoutS int, all bool, use []string) Verdict {
 		v.Output = lastOut
 		v.Ms = time.Since(start).Milliseconds()
 	}
+	if v.Result == "unknown" && !all && len(use) == 0 && !noSeedPortfolio && timeoutS >= 8 {
+		// Quantifier instantiation is sensitive to symbol numbering: an edit anywhere in a function can turn a sub-second
+		// proof into a time-out. Before giving up, try the primary solver again under a few different random seeds.
+		type sres struct {
+			k      int
+			r, out string
+		}
+		sctx, scancel := context.WithCancel(context.Background())
+		defer scancel()
+		seeds := []int{1, 2, 3, 4}
+		sch := make(chan sres, len(seeds))
+		for _, k := range seeds {
+			go func(k int) {
+				b := backend{name: fmt.Sprintf("z3-new-seed%d", k), argv: func(f string, t int) []string {
+					return []string{"z3-new", "-smt2", fmt.Sprintf("-T:%d", t), fmt.Sprintf("smt.random_seed=%d", k), fmt.Sprintf("sat.random_seed=%d", k), f}
+				}}
+				r, o := runBackend(sctx, b, query, timeoutS)
+				sch <- sres{k, r, o}
+			}(k)
+		}
+		for range seeds {
+			r := <-sch
+			v.All[fmt.Sprintf("z3-new-seed%d", r.k)] = r.r
+			if r.r == "unsat" || r.r == "sat" {
+				v.Result, v.Backend, v.Output = r.r, fmt.Sprintf("z3-new(seed %d)", r.k), r.out
+				v.Ms = time.Since(start).Milliseconds()
+				scancel()
+				break
+			}
+		}
+	}
 	return v
 }
+
+// noSeedPortfolio disables the second stage (cover checks and light queries do not need it).
+var noSeedPortfolio bool
